@@ -454,3 +454,34 @@ Theorem incoming_messages_overrun_refuted :
                           is_fatal (finalize_inmsgs r count true) = false.
 Proof. exact overrun_refuted. Qed.
 Print Assumptions incoming_messages_overrun_refuted.
+
+(* ---- distribution of slashed funds (roothash) ---- *)
+
+(* with a reward percentage of at most 100 -- what the runtime descriptor validity check
+   enforces at registration -- distributeSlashedFunds never fails and hands out no more than
+   was slashed *)
+Theorem distribute_slashed_funds_total :
+  forall total pct n,
+    pct <= 100 -> exists r e, distribute_slashed total pct n = Ok (r, e) /\ r + e * n <= total.
+Proof. exact distribute_slashed_total. Qed.
+Print Assumptions distribute_slashed_funds_total.
+
+Theorem runtime_percent_validity :
+  forall pe pb, rt_percent_valid pe pb = true <-> pe <= 100 /\ pb <= 100.
+Proof. exact rt_percent_valid_spec. Qed.
+Print Assumptions runtime_percent_validity.
+
+(* above 100 it is fatal as soon as at least 100 base units were slashed and somebody else is rewarded *)
+Theorem distribute_slashed_funds_fatal_above_100 :
+  forall total pct n,
+    100 < pct -> 100 <= total -> n <> 0 -> distribute_slashed total pct n = Fatal.
+Proof. exact distribute_slashed_fatal_above_100. Qed.
+Print Assumptions distribute_slashed_funds_fatal_above_100.
+
+(* a validity check that tests the equivocation percentage twice (copy/paste) is refuted *)
+Theorem runtime_percent_copy_paste_refuted :
+  exists pe pb total n,
+    rt_percent_valid_copy_paste pe pb = true /\ rt_percent_valid pe pb = false /\
+    distribute_slashed total pb n = Fatal.
+Proof. exact rt_percent_copy_paste_refuted. Qed.
+Print Assumptions runtime_percent_copy_paste_refuted.
